@@ -41,6 +41,31 @@ Theorem C01_case_variants : forall s s', Forall scalar s -> Forall scalar s' ->
   map upper s = map upper s' -> ns_new s = ns_new s'.
 Proof. intros s s' _ _. exact (case_insensitive s s'). Qed.
 
+(* end to end from the strings a user types: any accepted username/password, typed by the client in
+   any letter case, normalise to the same texts on both sides and the exchange above completes *)
+Theorem C01_honest_login_strings : forall u p u' p' Un Pn salt b a chal rest,
+  Forall scalar u -> Forall scalar p -> Forall scalar u' -> Forall scalar p' ->
+  ns_new u = Ok Un -> ns_new p = Ok Pn -> map upper u' = map upper u -> map upper p' = map upper p ->
+  length salt = 32%nat -> length b = 32%nat -> length a = 32%nat -> length chal = 16%nat ->
+  ns_new u' = Ok Un /\ ns_new p' = Ok Pn /\
+  forall acct t1, from_username_and_password Default (ns_text Un) (ns_text Pn) (salt ++ b ++ a ++ chal ++ rest) = Ok (acct, t1) ->
+  forall pr t2, into_proof Default (from_database_values (username_of acct) (password_verifier_of acct) (salt_of acct)) t1 = Ok (pr, t2) ->
+  exists cl t3 srv M2 t4 cli,
+    client_new Default (ns_text Un) (ns_text Pn) generator n_le (pr_B pr) (pr_salt pr) t2 = Ok (cl, t3) /\
+    check_public_key (cc_A cl) = Ok tt /\
+    into_server Default pr (cc_A cl) (cc_M1 cl) t3 = Ok (srv, M2, t4) /\
+    verify_server_proof cl M2 = Ok cli /\
+    ss_K srv = sc_K cli /\ length (ss_K srv) = 40%nat.
+Proof.
+  intros u p u' p' Un Pn salt b a chal rest _ _ _ _ Hu Hp Eu Ep Hs Hb Ha Hc.
+  split; [rewrite <- Hu; apply case_insensitive; exact Eu|].
+  split; [rewrite <- Hp; apply case_insensitive; exact Ep|].
+  intros acct t1 Hreg pr t2 Hpr.
+  destruct (honest_login (ns_text Un) (ns_text Pn) salt b a chal rest Hs Hb Ha Hc acct t1 Hreg pr t2 Hpr)
+    as (cl & t3 & srv & M2 & t4 & cli & H1 & H2 & H3 & H4 & H5 & H6 & _).
+  exists cl, t3, srv, M2, t4, cli. repeat split; assumption.
+Qed.
+
 (* the honest client's public key is never refused by the server *)
 Theorem C01_client_key_accepted : forall a, check_public_key (honest_A a) = Ok tt.
 Proof. exact honest_A_accepted. Qed.
@@ -50,3 +75,4 @@ Print Assumptions C01_registration.
 Print Assumptions C01_secrets_agree.
 Print Assumptions C01_case_variants.
 Print Assumptions C01_client_key_accepted.
+Print Assumptions C01_honest_login_strings.
